@@ -1,20 +1,30 @@
 #!/usr/bin/env python3
 """Fill the /repo commit hash into known_findings.json "fixed" entries written by the builders as
-"fixed: property=<id> fix: <subject> -- <what failed>"."""
+"fixed: property=<id> fix: <subject> ..."; the subject is looked up in /repo's log."""
 import json, re, subprocess, os
 V = os.path.dirname(os.path.dirname(os.path.abspath(__file__)))
 p = os.path.join(V, "known_findings.json")
 k = json.load(open(p))
 log = subprocess.run(["git", "-C", "/repo", "log", "--format=%h %s"], stdout=subprocess.PIPE, text=True).stdout.strip().split("\n")
-hmap = {l.split(" ", 1)[1]: l.split(" ", 1)[0] for l in log}
+subs = sorted(((l.split(" ", 1)[1], l.split(" ", 1)[0]) for l in log if " fix:" in " " + l), key=lambda x: -len(x[0]))
 out = []
 for f in k["fixed"]:
-    m = re.match(r"fixed: property=(\S+) (fix: .*?) -- (.*)", f)
-    if m and m.group(2) in hmap:
-        out.append("fixed: property=%s %s (%s) -- %s" % (m.group(1), hmap[m.group(2)], m.group(2), m.group(3)))
+    m = re.match(r"fixed: property=(\S+) ([0-9a-f]{7}) ", f)
+    if m and any(h == m.group(2) for _, h in subs):
+        out.append(f)
+        continue
+    hit = next(((s, h) for s, h in subs if s in f or s[:90] in f), None)
+    if hit:
+        s, h = hit
+        m = re.match(r"fixed: property=(\S+) ", f)
+        rest = f[m.end():]
+        rest = re.sub(r"^[0-9a-f]{7} ", "", rest)
+        rest = rest.replace(s, "").strip()
+        rest = re.sub(r"^\(\)\s*", "", rest)
+        rest = re.sub(r"^(--|\|)\s*", "", rest)
+        out.append("fixed: property=%s %s (%s) -- %s" % (m.group(1), h, s, rest))
     else:
         out.append(f)
-        if not re.match(r"fixed: property=\S+ [0-9a-f]{7}", f):
-            print("unmatched:", f[:100])
+        print("unmatched:", f[:110])
 k["fixed"] = out
 json.dump(k, open(p, "w"), indent=1)
